@@ -193,6 +193,16 @@ func (g *vfGen) genDets() {
 					}
 				}
 			}
+			// the detector's own literals planted after the seed (whole), at a few gaps
+			if len(s) > 0 && len(s) <= 4096 {
+				for _, lh := range fx.Signatures[name] {
+					lit, _ := hex.DecodeString(lh)
+					for _, gap := range []int{0, 7, 600} {
+						p := append(append(append([]byte{}, s...), make([]byte, gap)...), lit...)
+						g.emit(vfOp("det", name, p, 0))
+					}
+				}
+			}
 			// single byte flips
 			if len(s) > 0 && len(s) <= 600 {
 				for i := 0; i < g.pick(6, 40); i++ {
